@@ -1,7 +1,15 @@
 // the tower/client wrappers teos_common::cryptography::{sign, verify, recover_pk}: stubs carrying the contracts the
 // `wire` unit proves on the real wrappers
+// decrypt: the `blob` unit proves the real function computes AEAD-open under SHA256(txid) with the zero nonce followed by
+// consensus decoding; here that result is the uninterpreted dec_spec
+pub uninterp spec fn dec_spec(blob: Seq<u8>, txid: Txid) -> Option<Transaction>;
+pub struct DecryptingError;
 pub mod cryptography {
     use super::*;
+    #[verifier::external_body]
+    pub fn decrypt(encrypted_blob: &[u8], secret: &Txid) -> (res: Result<Transaction, DecryptingError>)
+        ensures match res { Ok(t) => dec_spec(encrypted_blob@, *secret) == Some(t), Err(_) => dec_spec(encrypted_blob@, *secret) is None }
+    { unimplemented!() }
     #[verifier::external_body]
     pub fn recover_pk(msg: &[u8], sig: &str) -> (r: Result<PublicKey, Secp256k1Error>)
         ensures match r { Ok(pk) => recover_spec(msg@, sig@) == Some(pk), Err(_) => recover_spec(msg@, sig@) is None }
